@@ -659,6 +659,28 @@ func wellFormed(c *hctx.Ctx, f ccFile, file []byte) {
 	}
 	cc := r.cc
 
+	// (1b) the parsed cache owns what it holds: overwriting the buffer handed to Unmarshal afterwards (reuse
+	// for the next file, zeroing of key material) changes no name, key, time, flag, address or ticket byte
+	{
+		buf := exact(file)
+		cc2 := new(credentials.CCache)
+		var e2 error
+		if p2, _ := hctx.Guard(func() { e2 = cc2.Unmarshal(buf) }); !p2 && e2 == nil {
+			// (the values of the header fields are views of the input - ccache.go, parseHeader - but they are
+			// unexported and nothing reads them after parsing, so no user of the cache can observe that; only
+			// what the API exposes is compared)
+			own := func() jv.V {
+				return jv.L(projPrinc(cc2.DefaultPrincipal.Realm, cc2.DefaultPrincipal.PrincipalName), projCreds(cc2.Credentials))
+			}
+			snap := own()
+			for i := range buf {
+				buf[i] ^= 0xA5
+			}
+			check(c, own() == snap, "a parsed cache does not change when the caller reuses the input buffer", "parse-aliases-input", "cache changed after the input buffer was overwritten", hexIn(file, map[string]interface{}{"version": v}))
+			c.Count("buffer-independence")
+		}
+	}
+
 	// (2) GetEntries: everything but the configuration entries
 	var ge []*credentials.Credential
 	p, _ := hctx.Guard(func() { ge = cc.GetEntries() })
